@@ -78,7 +78,8 @@ def run(ctx):
     order = ["Parser::parse$", "Parser::resolve_pending$"] + (["Parser::add_env$"] if has_env else []) + ["Parser::add_defaults$", "Validator::validate$"]
     calls = []
     for rx in order:
-        cs = gm.calls_to("clap_builder::parser::(parser|validator)::" + rx)
+        # the main path: calls not on the ignore_errors recovery edge (which may be a closure of map_err or a match arm of the same function)
+        cs = [c for c in gm.calls_to("clap_builder::parser::(parser|validator)::" + rx) if not has_bool(gm, c.bb, "T", r"is_ignore_errors_set\(")]
         require(fx, res, "R6.1", "phase-missing|" + rx.split("::")[-1].rstrip("$"), gm, "clap_builder::parser::(parser|validator)::" + rx, len(cs), 1, "get_matches_with no longer runs the phase %s" % rx.rstrip("$"))
         if cs:
             calls.append(cs[0])
@@ -88,9 +89,12 @@ def run(ctx):
                   "%s is not always preceded by %s: a lower-priority source could be applied first" % (b.callee_q.rsplit("::", 1)[1], a.callee_q.rsplit("::", 1)[1]))
     # recovery closure
     if has_env:
-        for cb in [x for c in gm.calls_to(r"Result::map_err$") for x in closure_bodies(fx, c)]:
-            e = cb.calls_to(r"Parser::add_env$")
-            d = cb.calls_to(r"Parser::add_defaults$")
+        rec = [x for c in gm.calls_to(r"Result::map_err$") for x in closure_bodies(fx, c)]
+        if not rec and any(has_bool(gm, c.bb, "T", r"is_ignore_errors_set\(") for c in gm.calls_to(r"Parser::add_defaults$")):
+            rec = [gm]      # `match self.parse(..) { Err(err) => { if ignore_errors { env; defaults } return Err(err) } .. }`
+        for cb in rec:
+            e = [c for c in cb.calls_to(r"Parser::add_env$") if cb is not gm or has_bool(gm, c.bb, "T", r"is_ignore_errors_set\(")]
+            d = [c for c in cb.calls_to(r"Parser::add_defaults$") if cb is not gm or has_bool(gm, c.bb, "T", r"is_ignore_errors_set\(")]
             if e and d:
                 res.check(cb.block_dominates(e[0].bb, d[0].bb) and e[0].bb != d[0].bb, "R6.1", "order|recovery|add_env<add_defaults", d[0].where(),
                           "error-recovery path also applies env before defaults", "on the ignore_errors recovery path defaults are applied before env: an arg with both would get its default")
@@ -144,10 +148,12 @@ def run(ctx):
     der = [i for i in impls if len(i["span"]) > 5 and i["span"][5] in ("derive", "Ord")]
     res.check(bool(impls) and bool(der), "R6.4", "ord-derived", sp_str(impls[0]["span"]) if impls else "?", "Ord for ValueSource is derived", "Ord for ValueSource is hand-written or missing (order no longer follows the declaration)")
     st = fx.body("clap_builder::parser::matches::matched_arg::MatchedArg::set_source")
-    mx = st.calls_to(r"Ord>?::max$")
-    okm = len(mx) == 1 and not st.calls_to(r"Ord>?::min$")
+    import panics as _P
+    mxs = [(t, c) for t in tree(st) for c in t.calls_to(r"Ord>?::max$", r"cmp::max$")]        # the max may sit in a closure (`self.source.map_or(source, |existing| existing.max(source))`)
+    okm = len(mxs) == 1 and not tree_calls(st, r"Ord>?::min$", r"cmp::min$")
     if okm:
-        es = sorted(expr(st, a) for a in mx[0].args)
+        t_, c_ = mxs[0]
+        es = sorted(_P.resolved_operand(t_, expr(t_, a)) for a in c_.args)
         okm = es == sorted(["self.source#Some.0", "source"])
     res.check(okm, "R6.4", "set_source-max", st.where(), "set_source keeps max(existing, new)", "MatchedArg::set_source no longer combines sources with max")
     ie = fx.body("clap_builder::parser::matches::value_source::ValueSource::is_explicit")
